@@ -451,4 +451,18 @@ func (fp *ForcedPlanner) SeenCounts() map[string]int {
 	return out
 }
 
+// ResetSeen clears the selection counters.
+func (p *SeededPlanner) ResetSeen() {
+	p.mu.Lock()
+	p.Seen = map[string]int{}
+	p.mu.Unlock()
+}
+
+// ResetSeen clears the forced planner's selection counters.
+func (fp *ForcedPlanner) ResetSeen() {
+	fp.mu <- struct{}{}
+	fp.Seen = map[string]int{}
+	<-fp.mu
+}
+
 var _ planner.Manager = (*SeededPlanner)(nil)
